@@ -28,7 +28,8 @@ type ClientOpts struct {
 	ConnectTimeout int    `json:"connect_timeout_s"`
 	Logger         int    `json:"logger"` // 0 none, 1 recording, 2 failing
 	WebSocket      bool   `json:"websocket,omitempty"`
-	Address        string `json:"address,omitempty"` // overrides the default address of the chosen transport
+	TLSMax12       bool   `json:"tls_1_2_at_most,omitempty"` // the application's TLS config does not go beyond TLS 1.2
+	Address        string `json:"address,omitempty"`         // overrides the default address of the chosen transport
 }
 
 const (
@@ -148,6 +149,9 @@ func NewCW(e *Engine, o ClientOpts, certs *CertSet) *CW {
 		cfg.TLSConfig = &tls.Config{RootCAs: certs.Roots(), Rand: SeededRand(e.Tape.Seed, 'c'), ServerName: o.ServerName, MinVersion: tls.VersionTLS12}
 	case TLSCfgSkipVerify:
 		cfg.TLSConfig = &tls.Config{InsecureSkipVerify: true, Rand: SeededRand(e.Tape.Seed, 'c'), ServerName: o.ServerName, MinVersion: tls.VersionTLS12}
+	}
+	if o.TLSMax12 && cfg.TLSConfig != nil {
+		cfg.TLSConfig.MaxVersion = tls.VersionTLS12
 	}
 	xmpp.VerifSetSMResume(cfg, o.SMResume)
 	w.Cfg = cfg
